@@ -100,6 +100,46 @@ def run(chk, prog):
     if not ok:
         chk.finding("invalidate", qc.key, "err-edge", "", "%s:%s" % (qc.file, qc.line),
                     "QuicConnector::connect does not invalidate the cached connection when handshake() fails: after an outage every request keeps using the dead connection")
+    # which tests may let a failed request bypass the invalidation?  Accepted idioms, enumerated: a prefix test on the error context
+    # (validated against the open_bi context literal below) and `close_reason()` being None.  Any other deciding branch is reported:
+    # a dead connection whose error/close reason falls on the bypass side stays cached for ever.
+    if ok:
+        errt = None
+        for (sb, targets, other) in discr_branch(qc, aw["result"]):
+            errt = targets.get(1, other if 0 in targets else None)
+        region = qc.reach_from([errt])
+        accepted = set()
+        for c in sw:
+            for (sb, tt, ft) in bool_branch(qc, c.dest[0]):
+                accepted.add(sb)
+        for c in qc.calls:
+            if re.search(r"quinn::connection::Connection::close_reason$", c.name or c.path or ""):
+                for (sb, tg, oth) in discr_branch(qc, c.dest[0]):
+                    accepted.add(sb)
+                for x in qc.calls:
+                    if re.search(r"Option::<T>::(is_some|is_none)$", x.path or "") and op_base(x.args[0]) is not None and \
+                            any(k == "call" and info is c for k, info in qc.trace(op_base(x.args[0]))):
+                        for (sb, tt, ft) in bool_branch(qc, x.dest[0]):
+                            accepted.add(sb)
+        nb = 0
+        for b in sorted(region):
+            t = qc.term(b)
+            if not t or t["k"] != "switch" or b == cl[0].bb:
+                continue
+            succs = set(qc.succ[b])
+            to_clear = [x for x in succs if cl[0].bb in qc.reach_from([x])]
+            bypass = [x for x in succs if cl[0].bb not in qc.reach_from([x])]
+            if not to_clear or not bypass:
+                continue
+            nb += 1
+            good = b in accepted
+            chk.instance("invalidate", "%s:%s" % (qc.file, qc.blocks[b].get("sp", {}).get("l", qc.line)),
+                         "the branch deciding whether a failed request invalidates the cached connection is a recognised predicate", good)
+            if not good:
+                chk.finding("invalidate", qc.key, "predicate-unrecognised", "", "%s:%s" % (qc.file, qc.blocks[b].get("sp", {}).get("l", qc.line)),
+                            "after a failed handshake() the cached QUIC connection is cleared only on one side of a test that is neither the error-context "
+                            "prefix test nor `close_reason()` being None (for example a match on particular ConnectionError variants): a connection that died "
+                            "for a reason on the other side stays cached and every later request fails until the proxy is restarted")
     hk = prog.body_of(prog.one(r"^connectors::quic::QuicConnector::handshake$"))
     ob = [c for c in hk.calls if re.search(r"quinn::connection::Connection::open_bi$", c.name or "")]
     lit = None
